@@ -5,6 +5,10 @@ C15 — spec definitions and helper lemmas (integers, Gaussian / Eisenstein divi
 import Mathlib.Tactic.Ring
 import Mathlib.Tactic.Linarith
 import Mathlib.Algebra.Order.Ring.Abs
+import Mathlib.Algebra.Ring.Basic
+import Mathlib.Algebra.Ring.MinimalAxioms
+import Mathlib.Algebra.GroupWithZero.Associated
+import Mathlib.Algebra.Group.Units.Basic
 namespace Yuiv.C15
 open Yuiv
 
@@ -60,4 +64,323 @@ theorem zdivround_exact (a b : Int) (hb : b ≠ 0) :
     2 * iabs (a - zDivRoundT a b * b) ≤ iabs b ∧
     (2 * iabs (a - zDivRoundT a b * b) = iabs b → iabs a < iabs (zDivRoundT a b * b)) :=
   round_core a b (a.tdiv b) (a.tmod b) (tmod_facts a b hb) (zdiv_rem a b)
+/-! ## quadratic integers -/
+
+namespace QInt
+
+@[ext] theorem ext' {x y : QInt} (h1 : x.a = y.a) (h2 : x.b = y.b) : x = y := by
+  cases x; cases y; simp_all
+
+theorem ne_zero_iff (y : QInt) : y ≠ zero ↔ (y.a ≠ 0 ∨ y.b ≠ 0) := by
+  constructor
+  · intro h; by_contra hc; rw [not_or, not_not, not_not] at hc; exact h (ext' hc.1 hc.2)
+  · intro h hc; rw [hc] at h; simp [zero] at h
+
+theorem gNorm_pos (y : QInt) (hy : y ≠ zero) : 0 < gNorm y := by
+  unfold gNorm
+  rcases (ne_zero_iff y).1 hy with h | h
+  · have := sq_nonneg y.b; have : 0 < y.a * y.a := mul_self_pos.2 (by assumption)
+    nlinarith
+  · have := sq_nonneg y.a; have : 0 < y.b * y.b := mul_self_pos.2 (by assumption)
+    nlinarith
+
+theorem eNorm_pos (y : QInt) (hy : y ≠ zero) : 0 < eNorm y := by
+  unfold eNorm
+  have key : 4 * (y.a * y.a + y.a * y.b + y.b * y.b * 1) = (2 * y.a + y.b) ^ 2 + 3 * (y.b * y.b) := by ring
+  rcases (ne_zero_iff y).1 hy with h | h
+  · by_cases hb : y.b = 0
+    · have : 0 < y.a * y.a := mul_self_pos.2 (by assumption)
+      rw [hb]; nlinarith
+    · have : 0 < y.b * y.b := mul_self_pos.2 (by assumption)
+      nlinarith [sq_nonneg (2 * y.a + y.b)]
+  · have : 0 < y.b * y.b := mul_self_pos.2 (by assumption)
+    nlinarith [sq_nonneg (2 * y.a + y.b)]
+
+theorem round_abs (a b : Int) (hb : 0 < b) : 2 * |a - zDivRoundT a b * b| ≤ b := by
+  have := (zdivround_exact a b (ne_of_gt hb)).1
+  rw [iabs_eq_abs, iabs_eq_abs, abs_of_pos hb] at this
+  exact this
+
+theorem sq_le_of_abs (e N : Int) (h : 2 * |e| ≤ N) : 4 * (e * e) ≤ N * N := by
+  have h1 := abs_nonneg e
+  have : |e| * |e| = e * e := abs_mul_abs_self e
+  nlinarith
+
+/-- division identity in Z[i] -/
+theorem g_div_rem (x y : QInt) : x = add (gMul (gDiv x y) y) (gRem x y) := by
+  ext <;> simp only [add, gRem, sub, gMul] <;> ring
+
+/-- `2·N(a % b) ≤ N(b)` in Z[i] -/
+theorem g_rem_bound (x y : QInt) (hy : y ≠ zero) : 2 * gNorm (gRem x y) ≤ gNorm y := by
+  have hN := gNorm_pos y hy
+  have h1 := sq_le_of_abs _ _ (round_abs (gMul x (gConj y)).a (gNorm y) hN)
+  have h2 := sq_le_of_abs _ _ (round_abs (gMul x (gConj y)).b (gNorm y) hN)
+  simp only [gRem, gDiv, gDivRound, sub, gMul, gConj] at *
+  generalize zDivRoundT _ (gNorm y) = q1 at *
+  generalize zDivRoundT _ (gNorm y) = q2 at *
+  simp only [gNorm] at *
+  obtain ⟨a1, a2⟩ := x
+  obtain ⟨b1, b2⟩ := y
+  simp only at *
+  set N := b1 * b1 - b2 * b2 * -1 with hNd
+  have key : ((a1 - (b1 * q1 + b2 * q2 * -1)) * (a1 - (b1 * q1 + b2 * q2 * -1)) - (a2 - (b1 * q2 + b2 * q1)) * (a2 - (b1 * q2 + b2 * q1)) * -1) * N
+      = (a1 * b1 + a2 * -b2 * -1 - q1 * N) * (a1 * b1 + a2 * -b2 * -1 - q1 * N) + (a1 * -b2 + a2 * b1 - q2 * N) * (a1 * -b2 + a2 * b1 - q2 * N) := by
+    rw [hNd]; ring
+  nlinarith
+
+/-- division identity in Z[ω] -/
+theorem e_div_rem (x y : QInt) : x = add (eMul (eDiv x y) y) (eRem x y) := by
+  ext <;> simp only [add, eRem, sub, eMul] <;> ring
+
+/-- `4·N(a % b) ≤ 3·N(b)` in Z[ω] -/
+theorem e_rem_bound (x y : QInt) (hy : y ≠ zero) : 4 * eNorm (eRem x y) ≤ 3 * eNorm y := by
+  have hN := eNorm_pos y hy
+  have r1 := round_abs ((eMul x (eConj y)).a + (eMul x (eConj y)).b) (eNorm y) hN
+  have r2 := round_abs (eMul x (eConj y)).b (eNorm y) hN
+  simp only [eRem, eDiv, eDivRound, sub, eMul, eConj] at *
+  generalize zDivRoundT _ (eNorm y) = m at *
+  generalize zDivRoundT _ (eNorm y) = n at *
+  simp only [eNorm] at *
+  obtain ⟨a1, a2⟩ := x
+  obtain ⟨b1, b2⟩ := y
+  simp only at *
+  set N := b1 * b1 + b1 * b2 + b2 * b2 * 1 with hNd
+  set e := a1 * (b1 + b2) + a2 * -b2 * -1 + (a1 * -b2 + a2 * (b1 + b2) + a2 * -b2) - m * N with he
+  set f := a1 * -b2 + a2 * (b1 + b2) + a2 * -b2 - n * N with hf
+  have key : ((a1 - (b1 * (m - n) + b2 * n * -1)) * (a1 - (b1 * (m - n) + b2 * n * -1)) +
+      (a1 - (b1 * (m - n) + b2 * n * -1)) * (a2 - (b1 * n + b2 * (m - n) + b2 * n)) +
+      (a2 - (b1 * n + b2 * (m - n) + b2 * n)) * (a2 - (b1 * n + b2 * (m - n) + b2 * n)) * 1) * N
+      = e * e - e * f + f * f := by
+    rw [he, hf, hNd]; ring
+  have h1 := abs_le.1 (show |e| ≤ N - |e| by linarith)
+  have h2 := abs_le.1 (show |f| ≤ N - |f| by linarith)
+  have ae := abs_nonneg e
+  have af := abs_nonneg f
+  have se : |e| * |e| = e * e := abs_mul_abs_self e
+  have sf : |f| * |f| = f * f := abs_mul_abs_self f
+  have hef : -(e * f) ≤ |e| * |f| := by
+    have := neg_abs_le (e * f); rw [abs_mul] at this; linarith [neg_le_abs (e*f)]
+  -- e² - ef + f² ≤ |e|² + |e||f| + |f|² ≤ 3 N²/4
+  nlinarith
+
+end QInt
+
+/-! ## the generic Euclid loop -/
+
+/-- what the generic code of `euc_ring.rs` assumes of a type implementing `EucRing`:
+the operations are those of a commutative ring, `/` and `%` satisfy the Euclidean law w.r.t. some size
+function, and `normalizing_unit` picks a unit that is compatible with passing to associates. -/
+structure LawfulEuc {α : Type} [CommRing α] (E : EucOps α) : Prop where
+  zero_eq : E.zero = 0
+  one_eq : E.one = 1
+  isZero_iff : ∀ a, E.isZero a = true ↔ a = 0
+  isOne_iff : ∀ a, E.isOne a = true ↔ a = 1
+  sub_eq : ∀ a b, E.sub a b = a - b
+  mul_eq : ∀ a b, E.mul a b = a * b
+  div_rem : ∀ a b, b ≠ 0 → a = E.div a b * b + E.rem a b
+  norm_rem : ∀ a b, b ≠ 0 → E.norm (E.rem a b) < E.norm b
+  rem_of_dvd : ∀ a b, b ≠ 0 → b ∣ a → E.rem a b = 0
+  normUnit_isUnit : ∀ a, IsUnit (E.normUnit a)
+  normUnit_assoc : ∀ a u, a ≠ 0 → IsUnit u → E.normUnit (a * u) * u = E.normUnit a
+
+namespace LawfulEuc
+variable {α : Type} [CommRing α] {E : EucOps α} (L : LawfulEuc E)
+include L
+
+theorem isZero_false (a : α) : E.isZero a = false ↔ a ≠ 0 := by
+  rw [← Bool.not_eq_true, L.isZero_iff]
+
+theorem normalized_eq (x : α) : E.normalized x = x * E.normUnit x := by
+  unfold EucOps.normalized
+  simp only
+  split
+  · rename_i h; rw [(L.isOne_iff _).1 h, mul_one]
+  · rw [L.mul_eq]
+
+theorem dvd_normalized (c x : α) : c ∣ E.normalized x ↔ c ∣ x := by
+  rw [L.normalized_eq]; exact (L.normUnit_isUnit x).dvd_mul_right
+
+theorem normalized_dvd (x c : α) : E.normalized x ∣ c ↔ x ∣ c := by
+  rw [L.normalized_eq]; exact (L.normUnit_isUnit x).mul_right_dvd
+
+theorem normalized_idem (x : α) : E.normalized (E.normalized x) = E.normalized x := by
+  rw [L.normalized_eq (E.normalized x), L.normalized_eq x]
+  by_cases hx : x = 0
+  · subst hx; simp
+  · have h := L.normUnit_assoc x (E.normUnit x) hx (L.normUnit_isUnit x)
+    have hu := L.normUnit_isUnit x
+    have : E.normUnit (x * E.normUnit x) = 1 := hu.mul_left_inj.1 (by rw [h, one_mul])
+    rw [this, mul_one]
+
+theorem normalized_assoc (x u : α) (hu : IsUnit u) : E.normalized (x * u) = E.normalized x := by
+  rw [L.normalized_eq, L.normalized_eq]
+  by_cases hx : x = 0
+  · subst hx; simp
+  · rw [mul_assoc, mul_comm u, L.normUnit_assoc x u hx hu]
+
+theorem divides_imp (x y : α) (h : E.divides x y = true) : x ≠ 0 ∧ x ∣ y := by
+  unfold EucOps.divides at h
+  rw [Bool.and_eq_true, Bool.not_eq_true', L.isZero_false, L.isZero_iff] at h
+  refine ⟨h.1, ?_⟩
+  have := L.div_rem y x h.1
+  rw [h.2, add_zero] at this
+  exact ⟨E.div y x, this.trans (mul_comm _ _)⟩
+
+/-- the Euclid loop terminates within `norm y + 1` rounds and preserves the common divisors -/
+theorem gcdLoop_spec (fuel : Nat) (x y : α) (hf : E.norm y < fuel) :
+    ∃ d, E.gcdLoop fuel x y = some d ∧ ∀ c, c ∣ d ↔ (c ∣ x ∧ c ∣ y) := by
+  induction fuel generalizing x y with
+  | zero => omega
+  | succ f ih =>
+    unfold EucOps.gcdLoop
+    by_cases hy : E.isZero y = true
+    · simp only [hy, if_true]
+      refine ⟨x, rfl, fun c => ?_⟩
+      rw [(L.isZero_iff y).1 hy]; simp
+    · simp only [hy]
+      have hy0 : y ≠ 0 := fun h => hy ((L.isZero_iff y).2 h)
+      have hn := L.norm_rem x y hy0
+      obtain ⟨d, hd, hc⟩ := ih y (E.rem x y) (by omega)
+      refine ⟨d, by simpa using hd, fun c => ?_⟩
+      rw [hc c]
+      have e := L.div_rem x y hy0
+      constructor
+      · rintro ⟨h1, h2⟩
+        refine ⟨?_, h1⟩
+        rw [e]; exact dvd_add (Dvd.dvd.mul_left h1 _) h2
+      · rintro ⟨h1, h2⟩
+        refine ⟨h2, ?_⟩
+        have : E.rem x y = x - E.div x y * y := (sub_eq_of_eq_add' e).symm
+        rw [this]; exact dvd_sub h1 (Dvd.dvd.mul_left h2 _)
+
+/-- `gcd` always returns (no fuel exhaustion, no panic); the result has exactly the common divisors of
+`x` and `y` as divisors, and is normalised — on every path, the early returns included -/
+theorem gcd_spec (x y : α) :
+    ∃ d, E.gcd x y = .ok d ∧ (∀ c, c ∣ d ↔ (c ∣ x ∧ c ∣ y)) ∧ E.normalized d = d := by
+  unfold EucOps.gcd
+  by_cases h0 : (E.isZero x && E.isZero y) = true
+  · rw [if_pos h0]
+    rw [Bool.and_eq_true, L.isZero_iff, L.isZero_iff] at h0
+    refine ⟨E.zero, rfl, fun c => ?_, ?_⟩
+    · rw [L.zero_eq, h0.1, h0.2]; simp
+    · rw [L.normalized_eq, L.zero_eq, zero_mul]
+  rw [if_neg h0]
+  by_cases h1 : E.divides x y = true
+  · rw [if_pos h1]
+    have ⟨_, hd⟩ := L.divides_imp x y h1
+    refine ⟨_, rfl, fun c => ?_, L.normalized_idem x⟩
+    rw [L.dvd_normalized]
+    exact ⟨fun h => ⟨h, dvd_trans h hd⟩, fun h => h.1⟩
+  rw [if_neg h1]
+  by_cases h2 : E.divides y x = true
+  · rw [if_pos h2]
+    have ⟨_, hd⟩ := L.divides_imp y x h2
+    refine ⟨_, rfl, fun c => ?_, L.normalized_idem y⟩
+    rw [L.dvd_normalized]
+    exact ⟨fun h => ⟨dvd_trans h hd, h⟩, fun h => h.2⟩
+  rw [if_neg h2]
+  obtain ⟨d, hd, hc⟩ := L.gcdLoop_spec (E.norm y + 1) x y (by omega)
+  rw [hd]
+  refine ⟨_, rfl, fun c => ?_, L.normalized_idem d⟩
+  rw [L.dvd_normalized]; exact hc c
+
+theorem gcdxLoop_spec (X Y : α) (fuel : Nat) (x y s0 s1 t0 t1 : α)
+    (h0 : s0 * X + t0 * Y = x) (h1 : s1 * X + t1 * Y = y) (hf : E.norm y < fuel) :
+    ∃ d s t, E.gcdxLoop fuel x y s0 s1 t0 t1 = some (d, s, t) ∧ s * X + t * Y = d ∧
+      E.gcdLoop fuel x y = some d := by
+  induction fuel generalizing x y s0 s1 t0 t1 with
+  | zero => omega
+  | succ f ih =>
+    unfold EucOps.gcdxLoop EucOps.gcdLoop
+    by_cases hy : E.isZero y = true
+    · simp only [hy, if_true]
+      exact ⟨x, s0, t0, rfl, h0, rfl⟩
+    · simp only [hy]
+      have hy0 : y ≠ 0 := fun h => hy ((L.isZero_iff y).2 h)
+      have hn := L.norm_rem x y hy0
+      have e := L.div_rem x y hy0
+      have hr : E.rem x y = x - E.div x y * y := (sub_eq_of_eq_add' e).symm
+      obtain ⟨d, s, t, hd, hb, hg⟩ := ih y (E.rem x y) s1 (E.sub s0 (E.mul (E.div x y) s1)) t1
+        (E.sub t0 (E.mul (E.div x y) t1)) h1
+        (by rw [L.sub_eq, L.sub_eq, L.mul_eq, L.mul_eq, hr, ← h0, ← h1]; ring) (by omega)
+      exact ⟨d, s, t, by simpa using hd, hb, by simpa using hg⟩
+
+/-- `gcdx` returns `(d, s, t)` with `s·x + t·y = d` and `d = gcd(x, y)`, on every path -/
+theorem gcdx_spec (x y : α) :
+    ∃ d s t, E.gcdx x y = .ok (d, s, t) ∧ s * x + t * y = d ∧ E.gcd x y = .ok d := by
+  unfold EucOps.gcdx EucOps.gcd
+  by_cases h0 : (E.isZero x && E.isZero y) = true
+  · rw [if_pos h0, if_pos h0]
+    exact ⟨_, _, _, rfl, by rw [L.zero_eq]; simp, rfl⟩
+  rw [if_neg h0, if_neg h0]
+  by_cases h1 : E.divides x y = true
+  · rw [if_pos h1, if_pos h1]
+    refine ⟨_, _, _, rfl, ?_, ?_⟩
+    · rw [L.mul_eq, L.zero_eq]; ring
+    · rw [L.normalized_eq, L.mul_eq]
+  rw [if_neg h1, if_neg h1]
+  by_cases h2 : E.divides y x = true
+  · rw [if_pos h2, if_pos h2]
+    refine ⟨_, _, _, rfl, ?_, ?_⟩
+    · rw [L.mul_eq, L.zero_eq]; ring
+    · rw [L.normalized_eq, L.mul_eq]
+  rw [if_neg h2, if_neg h2]
+  obtain ⟨d, s, t, hd, hb, hg⟩ := L.gcdxLoop_spec x y (E.norm y + 1) x y E.one E.zero E.zero E.one
+    (by rw [L.one_eq, L.zero_eq]; ring) (by rw [L.one_eq, L.zero_eq]; ring) (by omega)
+  rw [hd, hg]
+  simp only
+  by_cases hu : E.isOne (E.normUnit d) = true
+  · rw [if_pos hu]
+    refine ⟨_, _, _, rfl, hb, ?_⟩
+    unfold EucOps.normalized; simp only [hu, if_true]
+  · rw [if_neg hu]
+    refine ⟨_, _, _, rfl, ?_, ?_⟩
+    · rw [L.mul_eq, L.mul_eq, L.mul_eq, ← hb]; ring
+    · unfold EucOps.normalized; simp only [hu]; rfl
+
+/-- the gcd does not depend on the argument order (in a domain) -/
+theorem gcd_comm [IsDomain α] (x y d d' : α) (h : E.gcd x y = .ok d) (h' : E.gcd y x = .ok d') : d = d' := by
+  obtain ⟨d0, e, hc, hn⟩ := L.gcd_spec x y
+  obtain ⟨d1, e', hc', hn'⟩ := L.gcd_spec y x
+  rw [h] at e; rw [h'] at e'
+  injection e with e; injection e' with e'
+  subst e; subst e'
+  have h1 : d ∣ d' := (hc' d).2 ⟨((hc d).1 dvd_rfl).2, ((hc d).1 dvd_rfl).1⟩
+  have h2 : d' ∣ d := (hc d').2 ⟨((hc' d').1 dvd_rfl).2, ((hc' d').1 dvd_rfl).1⟩
+  obtain ⟨u, hu⟩ := associated_of_dvd_dvd h1 h2
+  rw [← hn, ← hn', ← hu, L.normalized_assoc d u u.isUnit]
+
+/-- `lcm·gcd` is an associate of `x·y`, and the lcm is normalised (`x`, `y` not both zero) -/
+theorem lcm_spec (x y : α) (hxy : ¬(x = 0 ∧ y = 0)) :
+    ∃ l g, E.lcm x y = .ok l ∧ E.gcd x y = .ok g ∧ Associated (l * g) (x * y) ∧ E.normalized l = l := by
+  obtain ⟨g, e, hc, _⟩ := L.gcd_spec x y
+  have hg : g ≠ 0 := by
+    intro h0
+    have := (hc g).1 dvd_rfl
+    rw [h0, zero_dvd_iff, zero_dvd_iff] at this
+    exact hxy this
+  have hgy : g ∣ y := ((hc g).1 dvd_rfl).2
+  unfold EucOps.lcm
+  rw [e]
+  simp only [(L.isZero_false g).2 hg]
+  refine ⟨_, g, rfl, rfl, ?_, L.normalized_idem _⟩
+  have hy := L.div_rem y g hg
+  rw [L.rem_of_dvd y g hg hgy, add_zero] at hy
+  rw [L.normalized_eq, L.mul_eq]
+  generalize E.div y g = q at hy ⊢
+  have hu := L.normUnit_isUnit (x * q)
+  refine Associated.symm ⟨hu.unit, ?_⟩
+  rw [IsUnit.unit_spec, hy]; ring
+
+/-- `lcm(0, 0)` divides by the gcd `0`: the real code panics (every ring of the library panics on `y / 0`) -/
+theorem lcm_zero_zero : E.lcm 0 0 = .panic := by
+  obtain ⟨g, e, hc, _⟩ := L.gcd_spec 0 0
+  have : g = 0 := by
+    have := (hc 0).2 ⟨dvd_rfl, dvd_rfl⟩
+    exact zero_dvd_iff.1 this
+  unfold EucOps.lcm
+  rw [e, this]
+  simp only [(L.isZero_iff 0).2 rfl, if_true]
+
+end LawfulEuc
 end Yuiv.C15
